@@ -239,7 +239,9 @@ def run(ctx):
             for j, (l, a, b) in enumerate(zip(ce, keep_res, ioe)):
                 if G.canon_impl(a) != G.canon_impl(b):
                     ne += 1
-                    failures.append(dict(kind="acceptor", acceptor="erasure", classes=sorted(classes_of_case(c, B, MA)),
+                    # a C02 corpus case may contain restarts: the model's known-class flags of both runs count
+                    failures.append(dict(kind="acceptor", acceptor="erasure",
+                                         classes=sorted(set(classes_of_case(c, B, MA)) | set(G.model_classes(res_map[id(c)][1])) | set(G.model_classes(moe))),
                                          case_lines=c, erased_case=ce[:j + 1], with_ops=a[:300], without_ops=b[:300],
                                          what=("peeks/offset reads changed a later result" if prop == "C02"
                                                else "restarts changed a later result")))
